@@ -4,6 +4,9 @@ gen/ActiveTagTables.vos gen/ActiveTagTables.vok gen/ActiveTagTables.required_vos
 gen/ConfigTables.vo gen/ConfigTables.glob gen/ConfigTables.v.beautified gen/ConfigTables.required_vo: gen/ConfigTables.v theories/Base.vo theories/ConfigTypes.vo
 gen/ConfigTables.vio: gen/ConfigTables.v theories/Base.vio theories/ConfigTypes.vio
 gen/ConfigTables.vos gen/ConfigTables.vok gen/ConfigTables.required_vos: gen/ConfigTables.v theories/Base.vos theories/ConfigTypes.vos
+gen/JUnitTables.vo gen/JUnitTables.glob gen/JUnitTables.v.beautified gen/JUnitTables.required_vo: gen/JUnitTables.v theories/Base.vo theories/Status.vo
+gen/JUnitTables.vio: gen/JUnitTables.v theories/Base.vio theories/Status.vio
+gen/JUnitTables.vos gen/JUnitTables.vok gen/JUnitTables.required_vos: gen/JUnitTables.v theories/Base.vos theories/Status.vos
 gen/OutlineTables.vo gen/OutlineTables.glob gen/OutlineTables.v.beautified gen/OutlineTables.required_vo: gen/OutlineTables.v theories/Base.vo
 gen/OutlineTables.vio: gen/OutlineTables.v theories/Base.vio
 gen/OutlineTables.vos gen/OutlineTables.vok gen/OutlineTables.required_vos: gen/OutlineTables.v theories/Base.vos
@@ -52,6 +55,12 @@ theories/Formatters.vos theories/Formatters.vok theories/Formatters.required_vos
 theories/FormattersProofs.vo theories/FormattersProofs.glob theories/FormattersProofs.v.beautified theories/FormattersProofs.required_vo: theories/FormattersProofs.v theories/Base.vo theories/Status.vo theories/Rollup.vo theories/Runner.vo theories/RunnerSteps.vo theories/RunnerQuiet.vo theories/Formatters.vo gen/StatusTable.vo
 theories/FormattersProofs.vio: theories/FormattersProofs.v theories/Base.vio theories/Status.vio theories/Rollup.vio theories/Runner.vio theories/RunnerSteps.vio theories/RunnerQuiet.vio theories/Formatters.vio gen/StatusTable.vio
 theories/FormattersProofs.vos theories/FormattersProofs.vok theories/FormattersProofs.required_vos: theories/FormattersProofs.v theories/Base.vos theories/Status.vos theories/Rollup.vos theories/Runner.vos theories/RunnerSteps.vos theories/RunnerQuiet.vos theories/Formatters.vos gen/StatusTable.vos
+theories/JUnit.vo theories/JUnit.glob theories/JUnit.v.beautified theories/JUnit.required_vo: theories/JUnit.v theories/Base.vo theories/UStr.vo theories/Status.vo gen/StatusTable.vo gen/JUnitTables.vo
+theories/JUnit.vio: theories/JUnit.v theories/Base.vio theories/UStr.vio theories/Status.vio gen/StatusTable.vio gen/JUnitTables.vio
+theories/JUnit.vos theories/JUnit.vok theories/JUnit.required_vos: theories/JUnit.v theories/Base.vos theories/UStr.vos theories/Status.vos gen/StatusTable.vos gen/JUnitTables.vos
+theories/JUnitProofs.vo theories/JUnitProofs.glob theories/JUnitProofs.v.beautified theories/JUnitProofs.required_vo: theories/JUnitProofs.v theories/Base.vo theories/UStr.vo theories/Status.vo theories/JUnit.vo gen/StatusTable.vo gen/JUnitTables.vo
+theories/JUnitProofs.vio: theories/JUnitProofs.v theories/Base.vio theories/UStr.vio theories/Status.vio theories/JUnit.vio gen/StatusTable.vio gen/JUnitTables.vio
+theories/JUnitProofs.vos theories/JUnitProofs.vok theories/JUnitProofs.required_vos: theories/JUnitProofs.v theories/Base.vos theories/UStr.vos theories/Status.vos theories/JUnit.vos gen/StatusTable.vos gen/JUnitTables.vos
 theories/Outline.vo theories/Outline.glob theories/Outline.v.beautified theories/Outline.required_vo: theories/Outline.v theories/Base.vo theories/UStr.vo gen/UnicodeTables.vo gen/OutlineTables.vo
 theories/Outline.vio: theories/Outline.v theories/Base.vio theories/UStr.vio gen/UnicodeTables.vio gen/OutlineTables.vio
 theories/Outline.vos theories/Outline.vok theories/Outline.required_vos: theories/Outline.v theories/Base.vos theories/UStr.vos gen/UnicodeTables.vos gen/OutlineTables.vos
@@ -166,6 +175,9 @@ props/C14.vos props/C14.vok props/C14.required_vos: props/C14.v theories/Base.vo
 props/C15.vo props/C15.glob props/C15.v.beautified props/C15.required_vo: props/C15.v theories/Base.vo theories/Status.vo theories/Rollup.vo theories/Runner.vo theories/RunnerSteps.vo theories/Formatters.vo theories/FormattersProofs.vo theories/RunnerEq.vo gen/StatusTable.vo
 props/C15.vio: props/C15.v theories/Base.vio theories/Status.vio theories/Rollup.vio theories/Runner.vio theories/RunnerSteps.vio theories/Formatters.vio theories/FormattersProofs.vio theories/RunnerEq.vio gen/StatusTable.vio
 props/C15.vos props/C15.vok props/C15.required_vos: props/C15.v theories/Base.vos theories/Status.vos theories/Rollup.vos theories/Runner.vos theories/RunnerSteps.vos theories/Formatters.vos theories/FormattersProofs.vos theories/RunnerEq.vos gen/StatusTable.vos
+props/C16.vo props/C16.glob props/C16.v.beautified props/C16.required_vo: props/C16.v theories/Base.vo theories/UStr.vo theories/Status.vo theories/JUnit.vo theories/JUnitProofs.vo gen/StatusTable.vo gen/JUnitTables.vo
+props/C16.vio: props/C16.v theories/Base.vio theories/UStr.vio theories/Status.vio theories/JUnit.vio theories/JUnitProofs.vio gen/StatusTable.vio gen/JUnitTables.vio
+props/C16.vos props/C16.vok props/C16.required_vos: props/C16.v theories/Base.vos theories/UStr.vos theories/Status.vos theories/JUnit.vos theories/JUnitProofs.vos gen/StatusTable.vos gen/JUnitTables.vos
 props/C17.vo props/C17.glob props/C17.v.beautified props/C17.required_vo: props/C17.v theories/Base.vo theories/Status.vo theories/Rollup.vo theories/Runner.vo theories/Summary.vo theories/Select.vo theories/SelectProofs.vo theories/Rerun.vo gen/StatusTable.vo
 props/C17.vio: props/C17.v theories/Base.vio theories/Status.vio theories/Rollup.vio theories/Runner.vio theories/Summary.vio theories/Select.vio theories/SelectProofs.vio theories/Rerun.vio gen/StatusTable.vio
 props/C17.vos props/C17.vok props/C17.required_vos: props/C17.v theories/Base.vos theories/Status.vos theories/Rollup.vos theories/Runner.vos theories/Summary.vos theories/Select.vos theories/SelectProofs.vos theories/Rerun.vos gen/StatusTable.vos
